@@ -442,7 +442,8 @@ def c09(tier):
                     continue    # reported once, as non-termination
                 if run["errs"][0] > b["fb"] and tvr.get("tv") == "ok" and b["fb"] in tvr.get("lost", []):
                     sig = "c09.first-error-discarded-by-later-recovery"
-                elif run["errs"][0] > b["fb"] and tvr.get("tv") == "ok" and b["fb"] in run["errs"] and not tvr.get("lost"):
+                elif run["errs"][0] > b["fb"] and tvr.get("tv") == "ok" and b["fb"] not in tvr.get("lost", []) and \
+                        (b["fb"] in run["errs"] or (not run["ok"] and b["fb"] in tvr.get("onstack", []))):
                     # nothing was lost: the Error of the first offending token is delivered, but after a later one,
                     # because an enclosing production reduces after the productions nested to its right
                     sig = "c09.first-offending-error-delivered-after-nested-one"
